@@ -84,9 +84,22 @@ RULE_C01 = ("layouts from vf.ref.t1_layout (static 120-byte memory: 0-3 NULL TLV
             "the NDEF TLV; random previous contents, old message in 1- and 3-byte length format) x message lengths "
             "0,1,253..256,capacity-1,capacity,capacity+1,adjacent-to-reserved,random; a case is (image, message), "
             "non-trivial when the write was attempted and both readers (fresh nfcpy instance, reference reader on raw "
-            "memory) were compared, or the oversize rejection was checked against the command counter")
+            "memory) were compared, or the oversize rejection was checked against the command counter.  Class 'failed "
+            "attempt(s), then the assignment is repeated on the same object' (the assignment the statement speaks of is "
+            "the application's repetition of `ndef.octets = m` on the SAME tag/ndef object after 1 or 2 attempts that "
+            "ended with TagCommandError because every exchange from command index j on was lost - command never reaches "
+            "the tag, or a quarter of the cases: executed and the answer lost; the previous tag contents are what the "
+            "failed attempt left behind): static layouts, dynamic layouts and the Topaz-512 factory layout x lengths 0/1, "
+            "around 254/255, capacity, random x j = first WRITE, every command index for short sequences, otherwise "
+            "first data WRITE / random WRITE / last WRITE / random command, two failed attempts; the repeated assignment "
+            "runs fault-free, must succeed and a fresh nfcpy reader and the reference reader must read exactly m")
 REQUIRED_C01 = ["t1t_roundtrips", "t1t_oversize_rejected", "t1t_capacity_checked",
-                "t1t_c01_layouts_header_across_reserved_blocks"]
+                "t1t_c01_layouts_header_across_reserved_blocks",
+                "t1t_c01_retry_cases", "t1t_c01_retry_roundtrips", "t1t_c01_retry_static", "t1t_c01_retry_dynamic",
+                "t1t_c01_retry_topaz512_factory_layout", "t1t_c01_retry_first_write_never_reached_tag",
+                "t1t_c01_retry_fault_at_later_write", "t1t_c01_retry_fault_at_read", "t1t_c01_retry_two_failed_attempts",
+                "t1t_c01_retry_rsp_lost", "t1t_c01_retry_cmd_lost", "t1t_c01_retry_len1", "t1t_c01_retry_len3",
+                "t1t_c01_retry_len_zero", "t1t_c01_retry_len_capacity", "t1t_c01_retry_tag_changed_by_failed_attempt"]
 
 
 def c01_lengths(rng, L, cap, extra=2):
@@ -106,11 +119,14 @@ def plan_c01(tier):
     if tier == "quick":
         return [{"layouts": 900, "mix": "static", "all_lengths": 2, "timeout": 300},
                 {"layouts": 450, "mix": "dynamic-small", "timeout": 300},
-                {"layouts": 220, "mix": "dynamic", "timeout": 300}]
+                {"layouts": 220, "mix": "dynamic", "timeout": 300},
+                {"mode": "retry", "layouts": 90, "timeout": 300}]
     return [{"layouts": 20000, "mix": "static", "all_lengths": 40, "timeout": 3000},
             {"layouts": 10000, "mix": "dynamic-small", "timeout": 3000},
             {"layouts": 4500, "mix": "dynamic", "timeout": 3000},
-            {"layouts": 4500, "mix": "dynamic", "timeout": 3000}]
+            {"layouts": 4500, "mix": "dynamic", "timeout": 3000},
+            {"mode": "retry", "layouts": 1500, "timeout": 3000},
+            {"mode": "retry", "layouts": 1500, "timeout": 3000}]
 
 
 def gen_layout(rng, mix):
@@ -124,6 +140,8 @@ def gen_layout(rng, mix):
 
 
 def run_c01(desc, R, rng):
+    if desc.get("mode") == "retry":
+        return run_c01_retry(desc, R, rng)
     for i in range(desc["layouts"]):
         L = gen_layout(rng, desc["mix"])
         td = tagdesc(L)
@@ -147,7 +165,10 @@ def run_c01(desc, R, rng):
 
 
 def replay_c01(case, R):
-    c01_case(case, R)
+    if case.get("faults") is not None:
+        c01_retry_case(case, R)
+    else:
+        c01_case(case, R)
 
 
 def c01_case(case, R):
@@ -242,6 +263,133 @@ def c01_case(case, R):
     R.count("t1t_roundtrips")
 
 
+def run_c01_retry(desc, R, rng):
+    quick = desc["tier"] == "quick"
+    for i in range(desc["layouts"]):
+        kind = ("static", "topaz512", "dynamic-small", "static", "dynamic", "topaz512")[i % 6]
+        if kind == "topaz512":
+            L = TL.topaz512_factory(rng)
+        else:
+            L = gen_layout(rng, kind)
+        if L.hdr_declared_on_header:
+            R.count("t1t_c01_layouts_outside_quantifier_skipped")
+            continue
+        cap = L.capacity
+        lens = [rng.choice([0, 1]), rng.choice([min(cap, 253), min(cap, 254), min(cap, 255), min(cap, 256)]),
+                rng.choice([cap, cap, rng.randrange(cap + 1)])]
+        td = tagdesc(L)
+        for n in sorted(set(lens)):
+            msg = rng.randbytes(n)
+            base = dict(td, family=FAM, msg=msg)
+            v = _write_sequence(base, msg)
+            if v is None or not any(c[0] in WRITE_OPS for c in v[1]):
+                R.count("t1t_c01_retry_setup_skipped")       # (nothing to write: same message)
+                continue
+            sets = _fault_sets(rng, v[1], 10 if quick else 40)
+            if quick and len(sets) > 7:
+                sets = sets[:1] + rng.sample(sets[1:], 6)
+            for faults, _principal in sets:
+                c01_retry_case(dict(base, faults=faults), R)
+        if i < 1:
+            R.sample({"t1t_c01_retry_layout": {"hr0": L.hr0, "ndef_tlv_at": L.offset, "capacity": cap, "lengths": lens}})
+
+
+def c01_retry_case(case, R):
+    """case: image.., msg, faults [[j, flavour], ...]: one failed attempt per entry, then the fault-free repetition"""
+    import nfc.tag
+    msg = bytes(case["msg"])
+    n = len(msg)
+    mem = memkind(case)
+    image = bytes(case["image"])
+    faults = [(int(j), str(f)) for j, f in case["faults"]]
+    ref0 = TL.ref_read(image, case["hr0"])
+    key = digest(image, case["hr0"], msg, repr(faults))
+    model = mk_model(case)
+    try:
+        clf, dev, tag = activate(model, command_bound=6000)
+        nd = tag.ndef
+        ok = nd is not None and bytes(nd.octets) == ref0.octets and n <= nd.capacity
+    except Exception:
+        ok = False
+    if not ok or ref0.status != "ndef":
+        R.case(key, nontrivial=False)
+        R.count("t1t_c01_retry_setup_skipped")        # the plain read / capacity clauses are c01_case's
+        return
+    failed = 0
+    first_cmd = None
+    writes_received = 0
+    for idx, (j, flavour) in enumerate(faults):
+        w0 = len(model.write_log)
+        hit = _arm_fault(dev, j, flavour)
+        exc = None
+        try:
+            nd.octets = msg
+        except Exception as e:      # noqa
+            exc = e
+        dev.script = None
+        if hit["n"] and isinstance(exc, nfc.tag.TagCommandError):
+            failed += 1
+            if first_cmd is None:
+                first_cmd = hit["cmd"]
+                writes_received = len(model.write_log) - w0
+        elif exc is not None and not isinstance(exc, nfc.tag.TagCommandError):
+            R.seen("t1t_c01_retry_attempt_other_exceptions", exc_sig(exc))      # C16's business
+    if not failed:
+        R.case(key, nontrivial=False)
+        R.count("t1t_c01_retry_fault_not_applicable")      # the fault position lies behind the end of the attempt
+        return
+    changed = bytes(model.mem) != image
+    raised = None
+    try:
+        nd.octets = msg
+    except Exception as e:          # noqa
+        raised = e
+    fmt = "len1" if n < 255 else "len3"
+    R.case(key)
+    R.count("t1t_c01_retry_cases")
+    R.count("t1t_c01_retry_" + mem)
+    R.count("t1t_c01_retry_" + fmt)
+    R.count("t1t_c01_retry_" + faults[0][1])
+    if mem == "dynamic" and ref0.offset == 22 and image[12:22] == TL.TOPAZ512_TLVS:
+        R.count("t1t_c01_retry_topaz512_factory_layout")
+    if failed > 1:
+        R.count("t1t_c01_retry_two_failed_attempts")
+    elif first_cmd[0] in WRITE_OPS and writes_received == 0:
+        R.count("t1t_c01_retry_first_write_never_reached_tag")
+    elif first_cmd[0] in WRITE_OPS:
+        R.count("t1t_c01_retry_fault_at_later_write")
+    else:
+        R.count("t1t_c01_retry_fault_at_read")
+    if changed:
+        R.count("t1t_c01_retry_tag_changed_by_failed_attempt")
+    if n == 0:
+        R.count("t1t_c01_retry_len_zero")
+    if n == ref0.capacity:
+        R.count("t1t_c01_retry_len_capacity")
+    where = "%d failed attempt(s) (every exchange lost from command %s on, %s)" % (
+        failed, "/".join(str(j) for j, _f in faults), "/".join(f for _j, f in faults))
+    sigbase = "t1t/c01/retry-after-failed-attempt/"
+    if raised is not None:
+        R.violation(sigbase + "write-raises/%s/%s" % (mem, exc_sig(raised)),
+                    "%s, then the fault-free repetition of ndef.octets = <%d octets> on the same object raised %r"
+                    % (where, n, raised), case)
+        return
+    kind, val = fresh_read(model)
+    if kind != "octets" or val != msg:
+        what = ("%d octets, first difference at %d" % (len(val), next((i for i, (a, b) in enumerate(zip(val, msg)) if a != b),
+                                                                      min(len(val), len(msg))))) if kind == "octets" else \
+            ("%s %r" % (kind, val))
+        R.violation(sigbase + "roundtrip/nfcpy-reader/%s/%s" % (mem, fmt),
+                    "%s, the repetition on the same object returned normally; wrote %d octets, a fresh nfcpy reader sees %s"
+                    % (where, n, what), case)
+    ref1 = TL.ref_read(model.mem, case["hr0"])
+    if ref1.status != "ndef" or ref1.octets != msg:
+        R.violation(sigbase + "roundtrip/ref-reader/%s/%s" % (mem, fmt),
+                    "%s, the repetition on the same object returned normally; wrote %d octets, the reference reader on the "
+                    "raw memory sees %r" % (where, n, ref1), case)
+    R.count("t1t_c01_retry_roundtrips")
+
+
 # ===================================================================================================
 # C02 - interrupted write
 # ===================================================================================================
@@ -249,20 +397,46 @@ RULE_C02 = ("writes (image, old message, new message) on static memory (byte-wis
             "WRITE-E8) with the NDEF TLV at every alignment 0..7 mod 8 (leading NULL TLVs), old/new lengths on both "
             "sides of 254/255 and up to capacity; for each write every cut point k=0..n (n = state changing commands of "
             "the uninterrupted write, measured) is executed with dev.arm_cut(k); a case is (write, k), non-trivial when "
-            "the fresh reader and the reference reader were both evaluated on the memory left behind")
+            "the fresh reader and the reference reader were both evaluated on the memory left behind.  Class 'failed "
+            "attempt(s), then retry on the same object, then cut' (the write that is interrupted is the application's "
+            "repetition of `ndef.octets = new` on the SAME tag/ndef object after 1 or 2 attempts that ended with "
+            "TagCommandError): in a failed attempt every exchange from command index j on is lost (the command never "
+            "reaches the tag, or - a quarter of the cases - the tag executes it and the answer is lost) until the attempt "
+            "has raised; j = the first WRITE (the one that zeroes the NDEF length) always, every command index for short "
+            "sequences, otherwise the first data WRITE, a random WRITE, the last WRITE and a random command; two failed "
+            "attempts (first WRITE twice / random positions); then every k = 0..n of the retry (quick tier: every k for "
+            "'first WRITE lost', boundary + random k for the other fault positions of long writes); static memory, "
+            "dynamic memory at every alignment and the Topaz-512 factory layout (NDEF TLV at 22); same oracle: the fresh "
+            "reader / reference reader see the old message, nothing, an empty or the new message.  The mechanism "
+            "discriminator 'len3-partially-written' (open finding) is decided on the history of WRITE commands the tag "
+            "executed: the first length byte was 00h, became FFh, and the other two length bytes are not the new length")
 REQUIRED_C02 = ["t1t_cut_runs", "t1t_cut_outcome_old", "t1t_cut_outcome_new", "t1t_cut_straddling_layouts",
-                "t1t_cut_layouts_header_across_reserved_blocks"]
+                "t1t_cut_layouts_header_across_reserved_blocks",
+                "t1t_c02_retry_cases", "t1t_c02_retry_cut_runs", "t1t_c02_retry_first_write_never_reached_tag",
+                "t1t_c02_retry_fault_at_later_command", "t1t_c02_retry_fault_at_read", "t1t_c02_retry_two_failed_attempts",
+                "t1t_c02_retry_tag_unchanged_by_failed_attempt", "t1t_c02_retry_rsp_lost", "t1t_c02_retry_cmd_lost",
+                "t1t_c02_retry_new_3_byte_length", "t1t_c02_retry_new_1_byte_length", "t1t_c02_retry_old_3_byte_length",
+                "t1t_c02_retry_old_1_byte_length", "t1t_c02_retry_writes_static", "t1t_c02_retry_writes_dynamic",
+                "t1t_c02_retry_topaz512_factory_layout", "t1t_c02_retry_complete_retry_stored_new",
+                "t1t_c02_retry_outcome_old", "t1t_c02_retry_outcome_new", "t1t_c02_retry_outcome_empty"]
+
+WRITE_OPS = (0x53, 0x54, 0x1A, 0x1B)
 
 
 def plan_c02(tier):
     if tier == "quick":
         return [{"writes": 320, "mix": "static", "timeout": 300},
                 {"writes": 160, "mix": "dynamic", "timeout": 300, "first_align": 0},
-                {"writes": 160, "mix": "dynamic", "timeout": 300, "first_align": 4}]
+                {"writes": 160, "mix": "dynamic", "timeout": 300, "first_align": 4},
+                {"mode": "retry", "writes": 10, "mix": "static", "timeout": 300},
+                {"mode": "retry", "writes": 24, "mix": "dynamic", "timeout": 300, "first_align": 0}]
     return [{"writes": 6000, "mix": "static", "timeout": 3000},
             {"writes": 1800, "mix": "dynamic", "timeout": 3000, "first_align": 0},
             {"writes": 1800, "mix": "dynamic", "timeout": 3000, "first_align": 3},
-            {"writes": 1800, "mix": "dynamic", "timeout": 3000, "first_align": 6}]
+            {"writes": 1800, "mix": "dynamic", "timeout": 3000, "first_align": 6},
+            {"mode": "retry", "writes": 120, "mix": "static", "timeout": 3000},
+            {"mode": "retry", "writes": 160, "mix": "dynamic", "timeout": 3000, "first_align": 0},
+            {"mode": "retry", "writes": 160, "mix": "dynamic", "timeout": 3000, "first_align": 5}]
 
 
 def c02_pick_len(rng, cap, which):
@@ -273,8 +447,13 @@ def c02_pick_len(rng, cap, which):
 
 
 def run_c02(desc, R, rng):
+    retry = desc.get("mode") == "retry"
     for i in range(desc["writes"]):
-        if desc["mix"] == "static":
+        if retry and desc["mix"] == "dynamic" and i % 3 == 0:
+            # the product as shipped / as Topaz512.format() leaves it: NDEF TLV at byte 22 (not aligned to the write unit)
+            L = TL.topaz512_factory(rng, old_len=rng.choice(["zero", "short", "short", "long", "long"]))
+            new_len = max(1, c02_pick_len(rng, L.capacity, rng.choice(["short", "short", "edge", "long"])))
+        elif desc["mix"] == "static":
             L = TL.gen_static(rng, nulls=i % 8, prop=False, old_len=rng.choice(["zero", "short", "short", None]))
             new_len = rng.choice([1, 2, rng.randrange(1, L.capacity + 1), L.capacity])
         else:
@@ -299,13 +478,19 @@ def run_c02(desc, R, rng):
             new_len = max(1, new_len)
         new = rng.randbytes(new_len)
         case = dict(tagdesc(L), family=FAM, new=new)
+        if retry:
+            c02_retry_enumerate(case, R, rng, desc["tier"])
+            continue
         c02_case(case, R)
         if i < 1:
             R.sample({"t1t_cut_write": {"hr0": L.hr0, "ndef_tlv_at": L.offset, "old_len": len(L.old), "new_len": new_len}})
 
 
 def replay_c02(case, R):
-    c02_case(case, R)
+    if case.get("faults") is not None:
+        c02_retry_case(case, R)
+    else:
+        c02_case(case, R)
 
 
 def c02_write(model, image, new, k):
@@ -324,6 +509,70 @@ def c02_write(model, image, new, k):
     except nfc.tag.TagCommandError as e:
         exc = e
     return old, dev.state_changes - s0, exc
+
+
+def c02_mech(model, w0, image, ref0, ref, old, new):
+    """mechanism discriminator of a mixed outcome.  'len3-partially-written' (the open finding: a 3-byte length field
+    that is written with more than one command) is decided on what the tag saw: the first length byte was 00h (on the
+    image, or a WRITE the tag executed stored 00h there), a later executed WRITE stored FFh there, and the other two
+    length bytes on the tag are not the new length.  An old 3-byte length that was never zeroed is NOT this mechanism."""
+    m = model.mem
+    lf = ref0.free[1:4]           # addresses of the length field (reserved bytes are not part of it)
+    if len(lf) == 3 and len(new) >= 255 and m[lf[0]] == 0xFF and (m[lf[1]], m[lf[2]]) != (len(new) >> 8, len(new) & 255):
+        zeroed = image[lf[0]] == 0
+        ff_after_zero = False
+        for name, start, n, executed, b0, b1 in model.write_log[w0:]:
+            if executed and start <= lf[0] < start + n:
+                v = b1[lf[0] - start]
+                if v == 0:
+                    zeroed, ff_after_zero = True, False
+                elif v == 0xFF and zeroed:
+                    ff_after_zero = True
+        if ff_after_zero:
+            return "len3-partially-written"
+    if ref.status == "ndef" and ref.length == len(new):
+        return "new-length-before-data"
+    if ref.status == "ndef" and ref.length == len(old):
+        return "old-length-over-new-data"
+    return "other"
+
+
+def _c02_judge(R, model, w0, wit, old, new, ref0, sigbase, where, cprefix):
+    """what a fresh nfcpy reader and the reference reader see on the memory the cut left behind"""
+    mem = memkind(wit)
+    kind, val = fresh_read(model)
+    ref = TL.ref_read(model.mem, wit["hr0"])
+    bad = None
+    if kind == "octets":
+        if val == old:
+            out = "old"           # (an empty old message counts as old)
+        elif val == new:
+            out = "new"
+        elif val == b"":
+            out = "empty"
+        else:
+            out = "mixed"
+            bad = "a fresh nfcpy reader returns %d octets that are neither the old (%d) nor the new (%d) message" % (
+                len(val), len(old), len(new))
+    elif kind in ("none", "none-tag"):
+        out = "none"
+    else:
+        out = "unreadable_exception"
+        R.seen("t1t_cut_reader_exceptions", exc_sig(val))
+    R.count(cprefix + out)
+    if ref.status == "ndef" and ref.octets not in (old, new, b""):
+        bad = bad or ("the reference reader finds a well-formed %d octet message on the raw memory that is neither "
+                      "the old (%d) nor the new (%d) message" % (ref.length, len(old), len(new)))
+        R.count("t1t_cut_ref_reader_mixed")
+    if bad:
+        m = model.mem
+        mech = c02_mech(model, w0, bytes(wit["image"]), ref0, ref, old, new)
+        if mech == "len3-partially-written":
+            sig = "t1t/cut/mixed/len3-partially-written/" + mem      # one mechanism, one signature (with or without retry)
+        else:
+            sig = "%s%s/%s" % (sigbase, mech, mem)
+        R.violation(sig, "%s (NDEF TLV at %d, old %d, new %d octets): %s; TLV header bytes on the tag: %s"
+                    % (where, ref0.offset, len(old), len(new), bad, bytes(m[a] for a in ref0.free[:4]).hex()), wit)
 
 
 def c02_case(case, R):
@@ -358,55 +607,216 @@ def c02_case(case, R):
     R.max("t1t_cut_points_per_write", n)
     ks = range(n + 1) if case.get("k") is None else [case["k"]]
     for k in ks:
+        w0 = len(model.write_log)
         try:
             c02_write(model, image, new, k)
         except Exception as e:
             R.case((wkey, k))
             R.count("t1t_cut_writer_other_exception")
             R.sample({"t1t_cut_writer_exception": repr(e), "k": k})
-        kind, val = fresh_read(model)
-        ref = TL.ref_read(model.mem, case["hr0"])
         R.case((wkey, k))
         R.count("t1t_cut_runs")
-        bad = None
-        if kind == "octets":
-            if val == old:
-                out = "old"           # (an empty old message counts as old)
-            elif val == new:
-                out = "new"
-            elif val == b"":
-                out = "empty"
-            else:
-                out = "mixed"
-                bad = "a fresh nfcpy reader returns %d octets that are neither the old (%d) nor the new (%d) message" % (
-                    len(val), len(old), len(new))
-        elif kind in ("none", "none-tag"):
-            out = "none"
-        else:
-            out = "unreadable_exception"
-            R.seen("t1t_cut_reader_exceptions", exc_sig(val))
-        R.count("t1t_cut_outcome_" + out)
-        if ref.status == "ndef" and ref.octets not in (old, new, b""):
-            bad = bad or ("the reference reader finds a well-formed %d octet message on the raw memory that is neither "
-                          "the old (%d) nor the new (%d) message" % (ref.length, len(old), len(new)))
-            R.count("t1t_cut_ref_reader_mixed")
-        if bad:
-            m = model.mem
-            o = ref0.offset
-            lf = ref0.free[1:4]           # addresses of the length field (reserved bytes are not part of it)
-            if (len(lf) == 3 and m[lf[0]] == 0xFF and len(new) >= 255
-                    and (m[lf[1]], m[lf[2]]) != (len(new) >> 8, len(new) & 255)):
-                mech = "len3-partially-written"
-            elif ref.status == "ndef" and ref.length == len(new):
-                mech = "new-length-before-data"
-            elif ref.status == "ndef" and ref.length == len(old):
-                mech = "old-length-over-new-data"
-            else:
-                mech = "other"
-            wit = dict(case, k=k)
-            R.violation("t1t/cut/mixed/%s/%s" % (mech, mem),
-                        "cut after %d of %d state changing commands (NDEF TLV at %d, old %d, new %d octets): %s; "
-                        "TLV header bytes on the tag: %s" % (k, n, o, len(old), len(new), bad, bytes(m[a] for a in ref0.free[:4]).hex()), wit)
+        _c02_judge(R, model, w0, dict(case, k=k), old, new, ref0, "t1t/cut/mixed/",
+                   "cut after %d of %d state changing commands" % (k, n), "t1t_cut_outcome_")
+
+
+def _arm_fault(dev, j, flavour):
+    """from the j-th exchange (counted from now) on every exchange is lost - "cmd_lost": the command never reaches
+    the tag, "rsp_lost": the tag executes it and the answer never reaches the reader - until dev.script is reset.
+    -> dict with the number of exchanges hit and the first command hit"""
+    import nfc.clf
+    first = dev.n_commands + j
+    hit = {"n": 0, "cmd": None}
+
+    def script(n, data):
+        if n < first:
+            return None
+        if not hit["n"]:
+            hit["cmd"] = data
+        hit["n"] += 1
+        return (flavour, nfc.clf.TimeoutError)
+    dev.script = script
+    return hit
+
+
+def _write_sequence(case, msg):
+    """fault-free dry run of `ndef.octets = msg` on a fresh model -> (old octets seen, commands of the write) / None"""
+    model = mk_model(case)
+    try:
+        clf, dev, tag = activate(model, command_bound=6000)
+        nd = tag.ndef
+        old = bytes(nd.octets)
+        c0 = dev.n_commands
+        nd.octets = msg
+    except Exception:
+        return None
+    return old, [cmd for n, cmd, _rsp in dev.log if n >= c0], model
+
+
+def _fault_sets(rng, cmds, every_upto):
+    """fault positions of the failed attempt(s): [(faults, principal)] with faults = [[j, flavour], ...]"""
+    ncmd = len(cmds)
+    writes = [i for i, c in enumerate(cmds) if c[0] in WRITE_OPS]
+    fl = lambda: "rsp_lost" if rng.random() < 0.25 else "cmd_lost"      # noqa
+    sets = [([[writes[0], "cmd_lost"]], True)]
+    if ncmd <= every_upto:
+        sets += [([[j, fl()]], False) for j in range(ncmd) if j != writes[0]]
+        sets.append(([[writes[0], "rsp_lost"]], False))
+    else:
+        js = [writes[1 if len(writes) > 1 else 0]]                         # the first data WRITE never reaches the tag
+        sets.append(([[js[0], "cmd_lost"]], False))
+        for j in (rng.choice(writes), writes[-1], rng.randrange(ncmd)):
+            if j not in js and j != writes[0]:
+                js.append(j)
+                sets.append(([[j, fl()]], False))
+        reads = [i for i in range(ncmd) if i not in writes and i not in js]
+        if reads:                   # memory behind the old message is read on demand in the middle of the write
+            sets.append(([[rng.choice(reads), fl()]], False))
+    sets.append(([[writes[0], "cmd_lost"], [writes[0], "cmd_lost"]], False))
+    sets.append(([[rng.randrange(ncmd), fl()], [rng.randrange(ncmd), fl()]], False))
+    return sets
+
+
+def c02_retry_enumerate(case, R, rng, tier):
+    """fault positions of the failed attempt(s) for one (image, new message), then c02_retry_case for each"""
+    new = bytes(case["new"])
+    ref0 = TL.ref_read(case["image"], case["hr0"])
+    v = _write_sequence(case, new)
+    if v is None or ref0.status != "ndef" or v[0] != ref0.octets or not any(c[0] in WRITE_OPS for c in v[1]):
+        R.count("t1t_c02_retry_setup_skipped")
+        return
+    cmds = v[1]
+    R.max("t1t_c02_retry_commands_in_attempt", len(cmds))
+    for faults, principal in _fault_sets(rng, cmds, 12 if tier == "quick" else 40):
+        c = dict(case, faults=faults)
+        if tier == "quick" and not principal:
+            c["k_sample"] = rng.getrandbits(30)
+        c02_retry_case(c, R)
+
+
+def c02_retry_case(case, R):
+    """case: image, hr0, .., new, faults [[j, flavour], ...] (one failed attempt each), optional k (replay: this cut
+    only), optional k_sample (seed of the k selection for long writes)"""
+    import random
+    import nfc.tag
+    image = bytes(case["image"])
+    new = bytes(case["new"])
+    mem = memkind(case)
+    faults = [(int(j), str(f)) for j, f in case["faults"]]
+    ref0 = TL.ref_read(image, case["hr0"])
+    if ref0.status != "ndef":
+        R.inconc("t1t C02: generated layout not well-formed: %r" % ref0)
+        return
+    old = ref0.octets
+    model = mk_model(case)
+    info = {}
+    fkey = digest(image, case["hr0"], new, repr(faults))
+
+    def write(nd):
+        try:
+            nd.octets = new
+            return None
+        except Exception as e:      # noqa: classified by the caller
+            return e
+
+    def prepare():
+        """tag memory restored, fresh reader, the failed attempts -> (dev, nd, w0) or None when an attempt did not fail"""
+        model.restore(image)
+        w0 = len(model.write_log)
+        clf, dev, tag = activate(model, command_bound=6000)
+        nd = tag.ndef if tag is not None else None
+        if nd is None:
+            info["why"] = "no ndef"
+            return None
+        info["unchanged"] = True
+        for idx, (j, flavour) in enumerate(faults):
+            hit = _arm_fault(dev, j, flavour)
+            e = write(nd)
+            dev.script = None
+            if not isinstance(e, nfc.tag.TagCommandError) or not hit["n"]:
+                info["why"] = "attempt %d %s" % (idx, "returned normally" if e is None else "raised " + exc_sig(e))
+                return None
+            if idx == 0:
+                info["first_cmd"] = hit["cmd"]
+                info["writes_received"] = len(model.write_log) - w0
+            if bytes(model.mem) != image:
+                info["unchanged"] = False
+        return dev, nd, w0
+
+    try:
+        v = prepare()
+    except Exception as e:
+        v = None
+        info["why"] = "setup raised " + exc_sig(e)
+    if v is None:
+        R.count("t1t_c02_retry_fault_not_applicable")       # e.g. the fault position lies behind the end of the attempt
+        R.case(fkey, nontrivial=False)
+        return
+    dev, nd, w0 = v
+    sc0 = dev.state_changes
+    e = write(nd)
+    n = dev.state_changes - sc0
+    after = TL.ref_read(model.mem, case["hr0"])
+    if e is not None:
+        R.count("t1t_c02_retry_complete_retry_raised")              # judged by C01 (retry class there)
+    elif after.status != "ndef" or after.octets != new:
+        R.count("t1t_c02_retry_complete_retry_other_message")       # shows below at k = n as well
+    else:
+        R.count("t1t_c02_retry_complete_retry_stored_new")
+    R.count("t1t_c02_retry_cases")
+    R.count("t1t_c02_retry_writes_" + mem)
+    if mem == "dynamic" and ref0.offset == 22 and image[12:22] == TL.TOPAZ512_TLVS:
+        R.count("t1t_c02_retry_topaz512_factory_layout")
+    first_is_write = (info.get("first_cmd") or b"\xff")[0] in WRITE_OPS
+    if len(faults) > 1:
+        R.count("t1t_c02_retry_two_failed_attempts")
+    elif first_is_write and info["writes_received"] == 0:
+        R.count("t1t_c02_retry_first_write_never_reached_tag")     # the tag still carries the old length
+    else:
+        R.count("t1t_c02_retry_fault_at_later_command")
+        if not first_is_write:
+            R.count("t1t_c02_retry_fault_at_read")
+    if info["unchanged"]:
+        R.count("t1t_c02_retry_tag_unchanged_by_failed_attempt")
+    R.count("t1t_c02_retry_%s" % faults[0][1])
+    R.count("t1t_c02_retry_new_%d_byte_length" % (3 if len(new) >= 255 else 1))
+    R.count("t1t_c02_retry_old_%d_byte_length" % (3 if len(old) >= 255 else 1))
+    R.seen("t1t_c02_retry_alignments_" + mem, ref0.offset % 8)
+    R.max("t1t_c02_retry_n", n)
+    if case.get("k") is not None:
+        ks = [case["k"]]
+    elif case.get("k_sample") is not None and n > 20:
+        r = random.Random(case["k_sample"])
+        ks = sorted(set([0, 1, 2, n - 2, n - 1, n] + [r.randrange(n + 1) for _ in range(5)]))
+    else:
+        ks = range(0, n + 1)
+    for k in ks:
+        try:
+            v = prepare()
+        except Exception as e:
+            v = None
+            info["why"] = "setup raised " + exc_sig(e)
+        if v is None:
+            R.inconc("t1t C02: the failed attempts of a retry case are not reproducible (%s)" % info.get("why"))
+            return
+        dev, nd, w0 = v
+        dev.arm_cut(k)
+        e = write(nd)
+        if e is not None and not isinstance(e, nfc.tag.TagCommandError):
+            R.count("t1t_cut_writer_other_exception")
+            R.sample({"t1t_cut_writer_exception": repr(e), "k": k, "faults": faults})
+        if k < n and not dev.dead:
+            R.inconc("t1t C02: cut %d of %d of the retry was not reached" % (k, n))
+        R.count("t1t_c02_retry_cut_runs")
+        R.case((fkey, k))
+        wit = {x: y for x, y in case.items() if x != "k_sample"}
+        wit["k"] = k
+        _c02_judge(R, model, w0, wit, old, new, ref0, "t1t/c02/retry-after-failed-attempt/mixed/",
+                   "%d failed attempt(s) (every exchange lost from command %s on), retry on the same object cut after %d "
+                   "of %d state changing commands" % (len(faults), "/".join(str(j) for j, _f in faults), k, n),
+                   "t1t_c02_retry_outcome_")
+    R.sample({"t1t_c02_retry": {"hr0": case["hr0"], "ndef_tlv_at": ref0.offset, "old": len(old), "new": len(new),
+                                "faults": faults, "n": n}})
 
 
 # ===================================================================================================
@@ -416,20 +826,37 @@ RULE_C03 = ("operations (ndef.octets = m for lengths 0..capacity incl. adjacent-
             "format(version, wipe in None/0/A5h/FFh) on Topaz, Topaz-512 and generic Type1Tag objects) on the C01 "
             "layouts plus blank / random / previously formatted product images; a case is (image, operation), "
             "non-trivial when the byte-wise memory diff and the write command log were both checked against the "
-            "allowed set derived by the reference reader")
+            "allowed set derived by the reference reader.  Class 'failed attempt(s), then retry on the same object' (this "
+            "extends the quantifier of the statement, which is universal over writes, by 'after a failed attempt': the "
+            "retried write is a write, and so is the attempt that ended with TagCommandError): the operation (octets=, "
+            "format(wipe)) is executed with every exchange from command index j on lost (command never reaches the tag / "
+            "a quarter of the cases: answer never reaches the reader) until it has raised or returned False, optionally "
+            "a second failed attempt, then fault-free on the SAME tag / ndef object; the memory diff and every WRITE "
+            "command the tag received (executed or not) are judged over all attempts together against the image before "
+            "the first attempt; static layouts, dynamic layouts (reserved ranges inside / directly after the message) "
+            "and the Topaz-512 factory layout, lengths on both sides of 254/255 up to capacity; j = first WRITE, every "
+            "command index for short sequences, first data WRITE / random WRITE / last WRITE / a read on demand / random")
 REQUIRED_C03 = ["t1t_c03_write_ops", "t1t_c03_format_ops", "t1t_c03_write_commands_inspected", "t1t_c03_bytes_diffed",
-                "t1t_c03_layouts_header_across_reserved_blocks"]
+                "t1t_c03_layouts_header_across_reserved_blocks",
+                "t1t_c03_retry_ops", "t1t_c03_retry_write_ops", "t1t_c03_retry_format_ops",
+                "t1t_c03_retry_attempt_failed_then_retry_returned", "t1t_c03_retry_two_failed_attempts",
+                "t1t_c03_retry_fault_at_write", "t1t_c03_retry_fault_at_read", "t1t_c03_retry_static",
+                "t1t_c03_retry_dynamic", "t1t_c03_retry_reserved_inside_message", "t1t_c03_retry_len3",
+                "t1t_c03_retry_len1", "t1t_c03_retry_write_commands_inspected"]
 
 
 def plan_c03(tier):
     if tier == "quick":
         return [{"layouts": 900, "mix": "static", "formats": 900, "timeout": 300},
                 {"layouts": 500, "mix": "dynamic-small", "formats": 250, "timeout": 300},
-                {"layouts": 300, "mix": "dynamic", "formats": 250, "timeout": 300}]
+                {"layouts": 300, "mix": "dynamic", "formats": 250, "timeout": 300},
+                {"mode": "retry", "layouts": 100, "timeout": 300}]
     return [{"layouts": 25000, "mix": "static", "formats": 25000, "timeout": 3000},
             {"layouts": 12000, "mix": "dynamic-small", "formats": 6000, "timeout": 3000},
             {"layouts": 6000, "mix": "dynamic", "formats": 6000, "timeout": 3000},
-            {"layouts": 6000, "mix": "dynamic", "formats": 6000, "timeout": 3000}]
+            {"layouts": 6000, "mix": "dynamic", "formats": 6000, "timeout": 3000},
+            {"mode": "retry", "layouts": 1500, "timeout": 3000},
+            {"mode": "retry", "layouts": 1500, "timeout": 3000}]
 
 
 def gen_format_image(rng, product):
@@ -453,7 +880,54 @@ def gen_format_image(rng, product):
     return d
 
 
+def _c03_sequence(case):
+    """fault-free dry run of the operation of `case` on a fresh model -> commands of the operation / None"""
+    model = mk_model(case)
+    try:
+        clf, dev, tag = activate(model, command_bound=8000)
+        if case["op"] == "write":
+            nd = tag.ndef
+            c0 = dev.n_commands
+            nd.octets = bytes(case["msg"])
+        else:
+            c0 = dev.n_commands
+            if tag.format(case.get("version"), case.get("wipe")) is not True:
+                return None
+    except Exception:
+        return None
+    return [cmd for n, cmd, _rsp in dev.log if n >= c0]
+
+
+def run_c03_retry(desc, R, rng):
+    quick = desc["tier"] == "quick"
+    for i in range(desc["layouts"]):
+        kind = ("static", "topaz512", "dynamic-small", "format", "dynamic", "topaz512")[i % 6]
+        if kind == "format":
+            td = gen_format_image(rng, rng.choice(["topaz", "topaz512", "topaz512"]))
+            base = dict(td, family=FAM, op="format", version=rng.choice([None, 0x10, 0x12]),
+                        wipe=rng.choice([None, 0, 0xA5, rng.randrange(256)]))
+        else:
+            L = TL.topaz512_factory(rng) if kind == "topaz512" else gen_layout(rng, kind)
+            if L.hdr_declared_on_header:
+                R.count("t1t_c03_layouts_outside_quantifier_skipped")
+                continue
+            cap = L.capacity
+            n = rng.choice([cap, cap, rng.randrange(cap + 1), min(cap, 254), min(cap, 255), L.adjacent_len or 1, 1])
+            base = dict(tagdesc(L), family=FAM, op="write", msg=rng.randbytes(n))
+        seq = _c03_sequence(base)
+        if not seq or not any(c[0] in WRITE_OPS for c in seq):
+            R.count("t1t_c03_retry_setup_skipped")
+            continue
+        sets = _fault_sets(rng, seq, 10 if quick else 40)
+        if quick and len(sets) > 7:
+            sets = sets[:1] + rng.sample(sets[1:], 6)
+        for faults, _principal in sets:
+            c03_case(dict(base, faults=faults), R)
+
+
 def run_c03(desc, R, rng):
+    if desc.get("mode") == "retry":
+        return run_c03_retry(desc, R, rng)
     for i in range(desc["layouts"]):
         L = gen_layout(rng, desc["mix"])
         td = tagdesc(L)
@@ -530,6 +1004,11 @@ def c03_case(case, R):
             allowed = set()
     raised = None
     result = None
+    faults = [(int(j), str(f)) for j, f in (case.get("faults") or ())]
+    failed = 0
+    opsig = op + "/retry-after-failed-attempt" if faults else op
+    if faults:
+        key = digest(key, repr(faults))
     try:
         if op == "write":
             nd = tag.ndef
@@ -537,12 +1016,30 @@ def c03_case(case, R):
                 R.case(key, nontrivial=False)
                 R.count("t1t_c03_setup_read_failed")
                 return
-            before = model.snapshot()
-            w0 = len(model.write_log)
+        before = model.snapshot()
+        w0 = len(model.write_log)
+        # class "failed attempt(s), then retry on the same object": every attempt is part of the operation
+        for j, flavour in faults:
+            hit = _arm_fault(dev, j, flavour)
+            res = exc = None
+            try:
+                if op == "write":
+                    nd.octets = bytes(case["msg"])
+                else:
+                    res = tag.format(case.get("version"), case.get("wipe"))
+            except Exception as e:      # noqa: the memory oracle applies whatever the attempt raised
+                exc = e
+            dev.script = None
+            if hit["n"] and (exc is not None or res is False):
+                failed += 1
+                R.count("t1t_c03_retry_fault_at_" + ("write" if hit["cmd"][0] in WRITE_OPS else "read"))
+                if exc is not None:
+                    R.seen("t1t_c03_retry_attempt_exceptions", exc_sig(exc))
+            else:
+                R.count("t1t_c03_retry_fault_behind_end_of_attempt")
+        if op == "write":
             nd.octets = bytes(case["msg"])
         else:
-            before = model.snapshot()
-            w0 = len(model.write_log)
             result = tag.format(case.get("version"), case.get("wipe"))
     except Exception as e:
         raised = e
@@ -550,6 +1047,18 @@ def c03_case(case, R):
             R.case(key, nontrivial=False)
             R.count("t1t_c03_setup_read_failed")
             return
+    if faults:
+        R.count("t1t_c03_retry_ops")
+        R.count("t1t_c03_retry_%s_ops" % op)
+        R.count("t1t_c03_retry_" + mem)
+        if failed and raised is None and result is not False:
+            R.count("t1t_c03_retry_attempt_failed_then_retry_returned")
+        if failed > 1:
+            R.count("t1t_c03_retry_two_failed_attempts")
+        if op == "write" and ref0.status == "ndef":
+            R.count("t1t_c03_retry_" + ("len1" if len(case["msg"]) < 255 else "len3"))
+            if rsv_inside(ref0, len(case["msg"])):
+                R.count("t1t_c03_retry_reserved_inside_message")
     R.case(key)
     R.count("t1t_c03_%s_ops" % op)
     if raised is not None:
@@ -574,16 +1083,18 @@ def c03_case(case, R):
         if a not in allowed:
             regions.setdefault(c03_region(a, case, ref0), []).append(a)
     for reg, addrs in sorted(regions.items()):
-        R.violation("t1t/c03/%s/changed-outside/%s/%s" % (op, reg, product),
+        R.violation("t1t/c03/%s/changed-outside/%s/%s" % (opsig, reg, product),
                     "%s changed %d byte(s) outside the NDEF area, first at %d: %02X -> %02X (allowed area starts at %s)"
                     % (op, len(addrs), addrs[0], before[addrs[0]], after[addrs[0]], min(allowed) if allowed else None), case)
     units = {}
     for name, start, n, executed, b0, b1 in model.write_log[w0:]:
         R.count("t1t_c03_write_commands_inspected")
+        if faults:
+            R.count("t1t_c03_retry_write_commands_inspected")
         if not any((start + i) in allowed for i in range(n)):
             units.setdefault(c03_region(start, case, ref0), []).append((name, start))
     for reg, lst in sorted(units.items()):
-        R.violation("t1t/c03/%s/write-unit-outside/%s/%s" % (op, reg, product),
+        R.violation("t1t/c03/%s/write-unit-outside/%s/%s" % (opsig, reg, product),
                     "%s sent %d write command(s) whose unit lies wholly outside the NDEF area, first %s at byte %d"
                     % (op, len(lst), lst[0][0], lst[0][1]), case)
 
@@ -603,8 +1114,26 @@ RULE_C08 = ("images: random; valid CC + random TLV area; valid layouts with 1-3 
             "the declared data area (every offset) x reserved ranges none/before/inside/tail/before+inside/straddle x "
             "geometries static 120 (TMS 96) and dynamic 256..1024 bytes physical with the data area declared shorter than "
             "the physical memory, whose bytes behind the data area hold a distinct pattern (same oracles: length<=capacity, "
-            "octets unchanged when everything outside the declared data area is inverted)")
-REQUIRED_C08 = ["t1t_c08_images_header_across_reserved_blocks", "t1t_c08_cases", "t1t_c08_step_budget_armed", "t1t_c08_outcome_none", "t1t_c08_outcome_ndef", "t1t_c08_mute_positions",
+            "octets unchanged when everything outside the declared data area is inverted); plus the enumerated class "
+            "'control TLV ranges inside the NDEF value' (c08_ctl_inside_image): one Lock Control TLV with every bit count "
+            "1..24 and 25,31,32,33,47,48,64,255,0(=256) or one Memory Control TLV with every byte count 1..24 and "
+            "25,32,40,64,0(=256), addressed with every BytesPerPage exponent 0..10 that can express the position, range at "
+            "the first value byte / in the middle / one value byte in front of the end / directly behind the last value "
+            "byte / overlapping the fixed blocks Dh..Fh, optionally a second control TLV of the other kind with its range "
+            "elsewhere inside the value, 1- and 3-byte length form, static 120-byte and dynamic 256..2048-byte geometries; "
+            "the non-interference oracle inverts, besides blocks Dh/Eh and the bytes behind the data area, every byte "
+            "from the NDEF TLV on that the reference reader excludes from the data area (lock bytes = ceil(bits/8), a "
+            "partially used last lock byte included)")
+REQUIRED_C08 = ["t1t_c08_ctl_inside_cases", "t1t_c08_ctl_inside_lock", "t1t_c08_ctl_inside_mem",
+                "t1t_c08_ctl_inside_lock_bits_below_8", "t1t_c08_ctl_inside_lock_partial_last_byte",
+                "t1t_c08_ctl_inside_lock_whole_bytes", "t1t_c08_ctl_inside_size_0_means_256",
+                "t1t_c08_ctl_inside_two_control_tlvs", "t1t_c08_ctl_inside_form1", "t1t_c08_ctl_inside_form3",
+                "t1t_c08_ctl_inside_returned_value", "t1t_c08_ctl_inside_reserved_bytes_inverted",
+                "t1t_c08_ctl_inside_static_memory", "t1t_c08_noninterference_declared_reserved_bytes_inverted"] + [
+    "t1t_c08_ctl_inside_pos_" + _c for _c in ("start", "middle", "last", "after", "fixed")] + [
+    "t1t_c08_ctl_inside_lock_bits_%d" % _b for _b in range(1, 25)] + [
+    "t1t_c08_ctl_inside_mem_bytes_%d" % _b for _b in range(1, 25)] + [
+    "t1t_c08_ctl_inside_exp_%d" % _e for _e in range(0, 11)] + ["t1t_c08_images_header_across_reserved_blocks", "t1t_c08_cases", "t1t_c08_step_budget_armed", "t1t_c08_outcome_none", "t1t_c08_outcome_ndef", "t1t_c08_mute_positions",
                 "t1t_c08_adversarial_responses", "t1t_c08_noninterference_checked",
                 "t1t_c08_tlv_end_cases", "t1t_c08_tlv_end_form3_len_below_255", "t1t_c08_tlv_end_memory_behind",
                 "t1t_c08_tlv_end_rsv_before", "t1t_c08_tlv_end_rsv_inside", "t1t_c08_tlv_end_fit_returned_value",
@@ -687,9 +1216,11 @@ NOMINAL = {"RALL": 122, "READ": 2, "READ8": 9, "RSEG": 129, "RID": 6}
 def plan_c08(tier):
     if tier == "quick":
         return ([{"images": 3500, "mute_every": 12, "adv": 3, "timeout": 300} for _ in range(3)]
-                + [{"tlv_end": form, "timeout": 300} for form in (1, 3)])
+                + [{"tlv_end": form, "timeout": 300} for form in (1, 3)]
+                + [{"ctl_inside": 2, "timeout": 300}])
     return ([{"images": 60000, "mute_every": 6, "adv": 4, "rall_all": True, "timeout": 3000} for _ in range(4)]
-            + [{"tlv_end": form, "part": part, "parts": 2, "timeout": 3000} for form in (1, 3) for part in (0, 1)])
+            + [{"tlv_end": form, "part": part, "parts": 2, "timeout": 3000} for form in (1, 3) for part in (0, 1)]
+            + [{"ctl_inside": 12, "timeout": 3000} for _ in range(2)])
 
 
 def c08_mutate(rng, L):
@@ -924,25 +1455,53 @@ def c08_case(case, R, info=None):
             and case.get("beyond") != "mirror"):
         # (with address mirroring the physical bytes of blocks Dh/Eh are also visible at addresses inside the
         #  declared data area, so inverting them legitimately changes the octets: no verdict there)
-        # non-interference: octets must not depend on bytes outside the declared data area or on block Dh/Eh
-        img = bytearray(case["image"])
-        declared = (img[10] + 1) * 8
-        flipped = False
-        for a in list(range(104, 120)) + list(range(declared, len(img))):
-            if a < len(img) and a >= 12:
+        # non-interference: octets must not depend on bytes outside the data area: blocks Dh/Eh, everything behind the
+        # declared data area, and - when the reference reader finds a well-formed NDEF TLV - the bytes from the NDEF TLV
+        # on that the reference reader excludes from the data area (block Fh of dynamic memory, lock bytes of Lock
+        # Control TLVs = ceil(bits/8) bytes, reserved bytes of Memory Control TLVs).  Reserved bytes in front of the
+        # NDEF TLV are left alone: they may coincide with CC / TLV bytes that were interpreted.
+        image = case["image"]
+        declared = (image[10] + 1) * 8
+        basic = [a for a in list(range(104, 120)) + list(range(declared, len(image))) if 12 <= a < len(image)]
+        ref = TL.ref_read(image, case["hr0"])
+        groups = {}
+        if ref.status == "ndef":
+            bset = set(basic)
+            for kind, start, nb in ref.ranges:
+                for a in range(max(start, ref.offset), min(start + nb, len(image), declared)):
+                    if a not in bset:
+                        groups.setdefault(kind + "-control-range", set()).add(a)
+            if ref.dynamic and ref.data_size > 120:
+                blockf = set(a for a in range(120, min(128, len(image))) if a >= ref.offset and a not in bset)
+                if blockf:
+                    groups["block-f"] = blockf
+        extra = sorted(set().union(*groups.values())) if groups else []
+
+        def differs(addrs):
+            img = bytearray(image)
+            for a in addrs:
                 img[a] ^= 0xFF
-                flipped = True
-        if flipped:
-            c2 = dict(case, image=bytes(img))
-            rec2 = _Quiet()
-            out2, oct2, _, _ = c08_eval(c2, rec2)
+            out2, oct2, _, _ = c08_eval(dict(case, image=bytes(img)), _Quiet())
+            return out2 == "ndef" and oct2 != octets
+        if basic or extra:
             R.count("t1t_c08_noninterference_checked")
+            if extra:
+                R.count("t1t_c08_noninterference_declared_reserved_bytes_inverted")
             if info is not None:
                 info["noninterference"] = True
-            if out2 == "ndef" and oct2 != octets:
-                R.violation("t1t/c08/octets-outside-data-area/" + c08_refclass(case, octets),
-                            "octets (%d) change when only bytes outside the declared data area (%d bytes) / in blocks Dh,Eh "
-                            "are inverted" % (len(octets), declared), case)
+                info["reserved_inverted"] = len(extra)
+            if differs(basic + extra):
+                if not extra or differs(basic):
+                    R.violation("t1t/c08/octets-outside-data-area/" + c08_refclass(case, octets),
+                                "octets (%d) change when only bytes outside the declared data area (%d bytes) / in blocks "
+                                "Dh,Eh are inverted" % (len(octets), declared), case)
+                else:
+                    which = [g for g in sorted(groups) if differs(sorted(groups[g]))] or ["combined"]
+                    rngs = ", ".join("%s %d..%d" % (k, st, st + nb - 1) for k, st, nb in ref.ranges)
+                    R.violation("t1t/c08/octets-from-reserved-bytes/" + "+".join(which),
+                                "octets (%d, NDEF TLV at %d) change when only bytes are inverted that the control TLVs "
+                                "exclude from the data area (%s; reference reader: lock bytes = ceil(bits/8))"
+                                % (len(octets), ref.offset, rngs or "block Fh"), case)
     return out, ncmd, log
 
 
@@ -1016,9 +1575,186 @@ def run_c08_tlv_end(desc, R, rng):
         R.sample({"t1t_c08_tlv_end_last_case": case["tlv_end"]})
 
 
+# geometries of the class "control TLV ranges inside the NDEF value": (HR0, HR1, physical bytes, declared data area)
+CTL_GEO = [(0x12, 0x4C, 512, 512), (0x12, 0x00, 256, 256), (0x14, 0x00, 1024, 1024), (0x12, 0x4C, 512, 384),
+           (0x11, 0x48, 120, 120), (0x12, 0x4C, 2048, 2048)]
+CTL_LOCK_BITS = list(range(1, 25)) + [25, 31, 32, 33, 47, 48, 64, 255, 0]
+CTL_MEM_BYTES = list(range(1, 25)) + [25, 32, 40, 64, 0]
+CTL_POS = ("start", "middle", "last", "after", "fixed")
+
+
+def _ctl_encodings(lo, hi):
+    """{exponent: [(address, position byte)]} of the addresses in [lo, hi) a control TLV can point at"""
+    out = {}
+    for e in range(0, 12):
+        for pa in range(16):
+            base = pa << e
+            if base >= hi:
+                break
+            for bo in range(16):
+                a = base + bo
+                if lo <= a < hi:
+                    out.setdefault(e, []).append((a, pa << 4 | bo))
+    return out
+
+
+def c08_ctl_inside_image(rng, geo, kind, size, pos, want_exp, second):
+    """one Lock / Memory Control TLV whose range lies at `pos` relative to the value of the NDEF TLV that follows
+    -> (case, description) or None when the combination cannot be laid out in this geometry"""
+    hr0, hr1, phys, data_end = geo
+    nb = ((size or 256) + 7) // 8 if kind == "lock" else (size or 256)
+    fixed = set(range(104, 120 if data_end == 120 else 128))
+    nctl = 2 if second else 1
+    o = 12 + 5 * nctl + rng.randrange(0, 3)               # 0..2 NULL TLVs in front of the NDEF TLV
+    for form in ((1, 3) if rng.random() < 0.8 else (3,)):
+        vs = o + (2 if form == 1 else 4)                   # address of the first value byte
+        # ---- where the range goes ------------------------------------------------------------------------------
+        if pos == "start":
+            lo, hi = vs, vs + 1
+        elif pos == "fixed":                                # overlaps blocks Dh..Fh from the front or from behind
+            if data_end == 120:
+                lo, hi = max(vs + 1, 104 - nb + 1), 104
+            elif rng.random() < 0.5:
+                lo, hi = max(vs + 1, 104 - nb + 1), 104
+            else:
+                lo, hi = 120, 128
+                if nb < 2:
+                    lo, hi = 127, 128
+                elif 120 + nb <= 128:
+                    lo = 128 - nb + 1
+        else:
+            lo, hi = vs + 1, data_end - nb - 3
+        enc = _ctl_encodings(lo, hi)
+        enc = {e: [x for x in v if x[0] + nb <= data_end - (0 if pos == "fixed" and data_end == 120 else 2)] for e, v in enc.items()}
+        enc = {e: v for e, v in enc.items() if v}
+        if not enc:
+            return None
+        e = want_exp if want_exp in enc else rng.choice(sorted(enc))
+        a, posbyte = rng.choice(enc[e])
+        reserved = set(fixed) | set(range(a, a + nb))
+        ranges = [[kind, a, nb, size, e]]
+        if second:
+            k2 = "mem" if kind == "lock" else "lock"
+            s2 = rng.randrange(1, 25) if k2 == "lock" else rng.randrange(1, 5)
+            nb2 = (s2 + 7) // 8 if k2 == "lock" else s2
+            enc2 = _ctl_encodings(vs + 1, data_end - nb2 - 3)
+            cands = [(a2, pb2, e2) for e2, v in enc2.items() for a2, pb2 in v
+                     if a2 + nb2 < a - 1 or a2 > a + nb + 1]
+            if not cands:
+                return None
+            a2, pb2, e2 = rng.choice(cands)
+            reserved.update(range(a2, a2 + nb2))
+            ranges.append([k2, a2, nb2, s2, e2])
+        usable = [x for x in range(vs, data_end) if x not in reserved]
+        before = sum(1 for x in usable if x < a)
+        behind = len(usable) - before
+        if pos == "after":
+            ln = before
+        elif pos == "last":
+            ln = before + 1
+        elif pos == "fixed" and a >= 120:
+            ln = before + rng.randrange(1, behind + 1) if behind else 0
+        else:
+            ln = before + (rng.randrange(1, behind + 1) if behind else 0)
+        if ln < 1 or ln > len(usable) or (pos != "after" and ln <= before) or (pos == "after" and a - 1 in reserved):
+            continue
+        if form == 1 and ln > 254:
+            continue
+        # ---- write the image -----------------------------------------------------------------------------------
+        img = bytearray(rng.randbytes(phys))
+        img[7] = 0
+        img[8:12] = bytes([0xE1, 0x10, data_end // 8 - 1, 0x00])
+        for x in range(12, o):
+            img[x] = 0
+        at = 12
+        for k, ra, rnb, rsize, re_ in ranges:
+            pb = posbyte if ra == a and k == kind else pb2
+            hi_nibble = rng.randrange(16)
+            img[at:at + 5] = bytes([1 if k == "lock" else 2, 3, pb, rsize & 0xFF, hi_nibble << 4 | re_])
+            at += 5
+        hdr = bytes([3, ln]) if form == 1 else bytes([3, 0xFF, ln >> 8, ln & 0xFF])
+        img[o:o + len(hdr)] = hdr
+        for x in usable[:ln]:
+            img[x] = rng.randrange(0x80)
+        for x in reserved:
+            if x < phys:
+                img[x] = 0x80 | rng.randrange(0x80)        # value bytes and reserved bytes are disjoint
+        if ln < len(usable):
+            img[usable[ln]] = 0xFE
+        value = bytes(img[x] for x in usable[:ln])
+        d = {"kind": kind, "size": size, "bytes": nb, "at": a, "exp": e, "pos": pos, "form": form, "len": ln,
+             "offset": o, "ranges": ranges, "data_end": data_end, "phys": phys}
+        case = {"family": FAM, "image": bytes(img), "hr0": hr0, "hr1": hr1, "cls": "ctl-inside", "ctl_inside": d}
+        return case, dict(d, value=value, inside=sum(1 for x in reserved - fixed if usable[0] < x < usable[ln - 1]))
+    return None
+
+
+def run_c08_ctl_inside(desc, R, rng):
+    reps = desc["ctl_inside"]
+    cell = 0
+    case = None
+    for kind, sizes in (("lock", CTL_LOCK_BITS), ("mem", CTL_MEM_BYTES)):
+        for size in sizes:
+            for pos in CTL_POS:
+                for rep in range(reps):
+                    cell += 1
+                    x = None
+                    for _try in range(6):
+                        want = (cell + _try) % 11
+                        geo = CTL_GEO[(cell + _try + rng.randrange(2)) % len(CTL_GEO)]
+                        if want >= 8 and geo[2] < (512, 1024, 2048)[want - 8] and pos in ("middle", "last", "after"):
+                            geo = CTL_GEO[5 if want > 8 else rng.choice((0, 2, 5))]     # page sizes of 256..1024 bytes
+                        x = c08_ctl_inside_image(rng, geo, kind, size, pos, want, second=(cell % 2 == 0))
+                        if x is not None:
+                            break
+                        R.count("t1t_c08_ctl_inside_not_laid_out")
+                    if x is None:
+                        R.count("t1t_c08_ctl_inside_cell_without_image")
+                        continue
+                    case, d = x
+                    info = {}
+                    out, ncmd, log = c08_case(case, R, info)
+                    R.count("t1t_c08_ctl_inside_cases")
+                    R.count("t1t_c08_ctl_inside_" + kind)
+                    R.count("t1t_c08_ctl_inside_pos_" + pos)
+                    R.count("t1t_c08_ctl_inside_exp_%d" % d["exp"])
+                    R.count("t1t_c08_ctl_inside_form%d" % d["form"])
+                    R.count("t1t_c08_ctl_inside_geo_%d_of_%d" % (d["data_end"], d["phys"]))
+                    if d["data_end"] == 120:
+                        R.count("t1t_c08_ctl_inside_static_memory")
+                    if size == 0:
+                        R.count("t1t_c08_ctl_inside_size_0_means_256")
+                    if len(d["ranges"]) > 1:
+                        R.count("t1t_c08_ctl_inside_two_control_tlvs")
+                    if kind == "lock":
+                        if 1 <= size <= 24:
+                            R.count("t1t_c08_ctl_inside_lock_bits_%d" % size)
+                        if 1 <= size < 8:
+                            R.count("t1t_c08_ctl_inside_lock_bits_below_8")
+                        elif size % 8:
+                            R.count("t1t_c08_ctl_inside_lock_partial_last_byte")
+                        else:
+                            R.count("t1t_c08_ctl_inside_lock_whole_bytes")
+                    elif 1 <= size <= 24:
+                        R.count("t1t_c08_ctl_inside_mem_bytes_%d" % size)
+                    if d["inside"]:
+                        R.count("t1t_c08_ctl_inside_reserved_bytes_between_value_bytes")
+                    # what the reader made of it (observations; the verdicts are c08_case's)
+                    if out == "ndef" and info.get("octets") == d["value"]:
+                        R.count("t1t_c08_ctl_inside_returned_value")
+                    else:
+                        R.count("t1t_c08_ctl_inside_returned_" + ("other_octets" if out == "ndef" else out.replace("-", "_")))
+                    if info.get("reserved_inverted"):
+                        R.count("t1t_c08_ctl_inside_reserved_bytes_inverted")
+    if case is not None:
+        R.sample({"t1t_c08_ctl_inside_last_case": case["ctl_inside"]})
+
+
 def run_c08(desc, R, rng):
     if desc.get("tlv_end"):
         return run_c08_tlv_end(desc, R, rng)
+    if desc.get("ctl_inside"):
+        return run_c08_ctl_inside(desc, R, rng)
     for i in range(desc["images"]):
         case = c08_gen(rng)
         R.seen("t1t_c08_image_classes", case["cls"])
